@@ -203,6 +203,11 @@ func NewTagScanner(tags map[string]map[string]string) *TagScanner {
 	return s
 }
 
+// Plain is a component that does not implement Iface (a by-name point of a node cannot hold it).
+type Plain struct{ X int }
+
+func (*Plain) Naming() string { return "zz-plain" }
+
 // Wrap plans of the substituting processor.
 const (
 	WrapNone = iota
@@ -551,6 +556,10 @@ func (p *GraphProg) Tags() (tags map[string]map[string]string, slots [][]string)
 				t["S5"] = "func|NoSuchMethod,required=false"
 			case "custom-req":
 				t["S5"] = "usertag|whatever"
+			case "nametype-req": // a component of that name exists, but it does not fit the field
+				t["S5"] = "zz-plain"
+			case "nametype-opt":
+				t["S5"] = "zz-plain,required=false"
 			case "custom-opt":
 				t["S5"] = "usertag|whatever,required=false"
 			}
@@ -672,6 +681,12 @@ func RunGraph(p *GraphProg, ch *envx.Chooser) *GraphObs {
 			pn := &ProcNode{rt: rt}
 			o.ProcNode = pn
 			comps = append(comps, pn)
+		}
+	}
+	for _, x := range p.Extra {
+		if strings.HasPrefix(x.Kind, "nametype-") {
+			comps = append(comps, &Plain{})
+			break
 		}
 	}
 	switch p.Bystander {
